@@ -657,3 +657,22 @@ def delineate_minimum(ctx, s):
           "accepts every input of at least 152 bytes (the smallest event) whose recorded length fits; rejects shorter ones" if ok else
           "the minimum-length test of delineate is not 'reject iff len < 152': the smallest legal event (no tags, empty content) "
           "is unreadable, or shorter garbage is accepted")
+
+
+def env_flags(ctx, s, forbidden=("NO_LOCK",)):
+    """the LMDB environment is opened with its writer mutex and reader table: MDB_NOLOCK would remove the single-writer
+    guarantee every store relies on and let writers recycle pages under a running query's snapshot"""
+    fn = ctx.fn("pocket_db::Lmdb::new")
+    an = ctx.E.an(fn)
+    calls = [(b, i) for b, i in an.calls() if (i["callee"] or "").startswith("heed::env::") and (i["callee"] or "").endswith("::flags")]
+    names = set()
+    for b, info in calls:
+        for v in info["args"][1:]:
+            for k in find_values(v, lambda y: y[0] == "kconst"):
+                names.add(str(k[1]).rsplit("::", 1)[-1])
+    bad = sorted(n for n in names if n in forbidden)
+    sp = calls[0][1]["sp"] if calls else fn.sp
+    s.add("S-TABLE", fn, "environment-flags", "no " + "/".join(forbidden), sp, VIOLATION if bad else PROVED,
+          "the environment is opened without its locks (%s): concurrent stores no longer serialize and queries lose snapshot "
+          "isolation" % ", ".join(bad) if bad else
+          "environment flags %s: LMDB's writer mutex and reader table stay in force" % (sorted(names) or "(default)"))
